@@ -158,6 +158,10 @@ Read == /\ p.want
 Done == p.mode = "done" /\ UNCHANGED vars
 Next == Read \/ Done
 Spec == Init /\ [][Next]_vars
+\* a reader that answers every Read (it may answer with nothing, but only MaxEmpty times in a row ... in a behaviour): the parser terminates -
+\* every NextBlock call returns, and after finitely many calls the terminal condition (end of input, the reader's error, block too large) is returned
+FairSpec == Init /\ [][Next]_vars /\ WF_vars(Read)
+Terminates == <>(p.mode = "done")
 
 \* ---------- properties ----------
 \* C08: at termination the emitted blocks are those of the in-memory parse of the delivered prefix, then the right error
